@@ -20,7 +20,7 @@ import (
 )
 
 type UOp struct {
-	Kind   string `json:"kind"` // send | reply | stray | expire | update
+	Kind   string `json:"kind"`           // send | reply | stray | expire | update
 	List   []int  `json:"list,omitempty"` // update: the new key list
 	Client int    `json:"client"`
 	Key    int    `json:"key"`
@@ -74,8 +74,8 @@ func genUCase(o uOpts) func(t *rapid.T) UCase {
 		if o.expiry {
 			kinds = append(kinds, "expire", "expire", "update", "update")
 		}
-		cur := c.List               // the list in force at this point of the history
-		lastKey := map[int]int{}    // client -> key of its latest well-formed datagram
+		cur := c.List            // the list in force at this point of the history
+		lastKey := map[int]int{} // client -> key of its latest well-formed datagram
 		for i := 0; i < nops; i++ {
 			op := UOp{Kind: rapid.SampledFrom(kinds).Draw(t, "kind")}
 			op.Client = rapid.IntRange(0, len(c.ClientIPs)-1).Draw(t, "client")
@@ -553,7 +553,9 @@ func (w *uWorld) doSend(i int, op UOp) *kit.Finding {
 		if a == nil {
 			a = &uAssoc{Client: op.Client, Gen: len(w.all), Key: matched[0], NatSrc: map[string]string{}, targets: map[int]bool{}}
 			// locate the metrics record of the new association
-			if kit.WaitFor(uBound, func() bool { return w.findRec(cl.Addr.String(), nAssocBefore) != nil || w.racedWithRemoval(cl.Addr.String()) }) && w.findRec(cl.Addr.String(), nAssocBefore) != nil {
+			if kit.WaitFor(uBound, func() bool {
+				return w.findRec(cl.Addr.String(), nAssocBefore) != nil || w.racedWithRemoval(cl.Addr.String())
+			}) && w.findRec(cl.Addr.String(), nAssocBefore) != nil {
 				a.Rec = w.findRec(cl.Addr.String(), nAssocBefore)
 			} else if w.racedWithRemoval(cl.Addr.String()) {
 				w.aborted = true
